@@ -77,11 +77,13 @@ def widths(spec):
 
 def draw_cell(rng, field, fmt, bad_rate=0.15):
     _, _, good, bad, _ = FIELD_KINDS[field["type"]]
+    good = field.get("good", good)
+    bad = field.get("bad", bad)
     roll = rng.random()
     if roll < bad_rate:
         pool = list(bad)
         if fmt == "fixed":
-            pool = [cell for cell in pool if len(cell) <= FIELD_KINDS[field["type"]][1]] or [""]
+            pool = [cell for cell in pool if len(cell) <= field.get("width", FIELD_KINDS[field["type"]][1])] or [""]
         pool.append("")
         return rng.choice(pool)
     if field.get("empty") and roll < bad_rate + 0.1:
